@@ -35,7 +35,7 @@ def any_key():
         lambda t: gk.oct_key(1, 64) if t == "oct" else gk.rsa_key(1024, 4096) if t == "RSA" else gk.ec_key(t) if t in CURVES else gk.okp_key(t))
 
 
-optional = st.fixed_dictionaries({}, optional={"kid": st.sampled_from(["k1", "é"]), "use": st.just("sig"), "alg": st.just("X"), "x5t": st.just("dGh1bWI"),
+optional = st.fixed_dictionaries({}, optional={"kid": st.sampled_from(["k1", "é", ""]), "use": st.just("sig"), "alg": st.just("X"), "x5t": st.just("dGh1bWI"),
                                                "key_ops": st.just(["sign", "verify"])})
 
 
@@ -128,7 +128,7 @@ def make_machine(ctx):
             self.expected_kid = "unset"      # 'unset' until the library or the caller assigned one
             self.log = []
 
-        @initialize(key=any_key(), how=st.sampled_from(["jwk", "pem", "generate-auto", "jwk-kid", "params-kid", "public"]))
+        @initialize(key=any_key(), how=st.sampled_from(["jwk", "pem", "generate-auto", "jwk-kid", "params-kid", "public", "jwk-empty-kid"]))
         def setup(self, key, how):
             from joserfc.jwk import OctKey, RSAKey, ECKey, OKPKey
             cls = {"oct": OctKey, "RSA": RSAKey, "EC": ECKey, "OKP": OKPKey}[key["kty"]]
@@ -144,6 +144,9 @@ def make_machine(ctx):
             elif how == "jwk-kid":
                 self.key = cls.import_key({**jwk, "kid": "given-kid"})
                 self.expected_kid = "given-kid"
+            elif how == "jwk-empty-kid":
+                self.key = cls.import_key({**jwk, "kid": ""})      # an empty string is a kid too: never replaced
+                self.expected_kid = ""
             elif how == "params-kid":
                 self.key = cls.import_key(jwk, {"kid": "param-kid"})
                 self.expected_kid = "param-kid"
@@ -247,6 +250,8 @@ def replay_history(rec) -> dict:
         key = cls.import_key(rk.export_jwk(rk.public_of(ref), private=False))
     elif how == "jwk-kid":
         key, expected = cls.import_key({**jwk, "kid": "given-kid"}), "given-kid"
+    elif how == "jwk-empty-kid":
+        key, expected = cls.import_key({**jwk, "kid": ""}), ""
     elif how == "params-kid":
         key, expected = cls.import_key(jwk, {"kid": "param-kid"}), "param-kid"
     else:
